@@ -44,7 +44,8 @@ CHECKS["C02"] = dict(
          "never decreases, UIDVALIDITY never changes and no UID below UIDNEXT is ever assigned to a new message; APPENDUID "
          "is the old UIDNEXT and names the appended message. Tied to the code by step-by-step comparison of generated "
          "histories (restarts, deliveries, packing) and by a ledger oracle over white-box snapshots; UIDVALIDITY of "
-         "deleted/recreated and renamed mailboxes is checked on the real commands.",
+         "deleted/recreated (also subscribed, also with inferiors) and renamed mailboxes is checked on the real commands; the "
+         "ledger and binding oracles also run on histories with deliveries the server cannot see yet (mtime unchanged).",
     note=MBOX_NOTE + " RENAME/DELETE are not in Model/Mbox.v (implementation-side oracle only); crash points belong to C11.", ref="6/C02")
 CHECKS["C03"] = dict(
     technique="Coq step-relation proof (binding of UID to content is stable over any history) + differential correspondence with content-tagged messages",
@@ -73,8 +74,12 @@ CHECKS["C13"] = dict(
     text="Theorems: messages delivered by an MH agent are appended in MH-number order with UIDs >= the old UIDNEXT and \\Recent, "
          "existing messages untouched, every selected session is told in FIFO order; \\Seen iff not in `unseen` on every "
          "message of every reachable world; removal is exact. The .mh_sequences clause is decided on the implementation: the "
-         "file is read as an MH tool would after every command and compared with what the IMAP sessions see.",
-    note=MBOX_NOTE + " The textual content of .mh_sequences is not in the model (oracle on the real file).", category="proof", ref="6/C13")
+         "file is read as an MH tool would after every command and compared with what the IMAP sessions see; also on "
+         "histories with deliveries the server cannot see yet (same second as its last look) and with deliveries injected "
+         "while a command is being carried out (after admission, before it writes .mh_sequences).",
+    note=MBOX_NOTE + " The textual content of .mh_sequences is not in the model (oracle on the real file); deliveries the "
+         "server has not noticed and deliveries inside a command are outside the model (implementation-side oracles only).",
+    category="proof", ref="6/C13")
 CHECKS["C12"] = dict(
     technique="Coq proof of the persistence codec round trip and of restart-as-identity on the world model; observe/restart/observe correspondence on the real server",
     text="Theorems: expand(compact l) = l for every strictly ascending list (the persisted form of UID lists, message keys "
@@ -119,14 +124,19 @@ CHECKS["C06"] = dict(
     note=TB + "The outcome table of command() is a hand model compared with the real method driven by stub handlers; 'promptly' is "
          "measured under the virtual clock (timers free to fire); concurrency between sessions is C10's.", ref="6/C06")
 CHECKS["C10"] = dict(
-    technique="Coq proofs (admission relation sound for declared footprints; commuting steps => interleaving = serial, n commands; hold-one-mailbox discipline => no deadlock) + seeded schedule exploration with a linearizability oracle evaluated in Coq",
+    technique="Coq proofs (admission relation sound for declared footprints; commuting steps => interleaving = serial, n commands; hold-one-mailbox discipline => no deadlock; two-step FETCH/STORE/SEARCH: invariant and no-EXPUNGE under every interleaving) + seeded schedule exploration with a linearizability oracle evaluated in Coq",
     text="PARTIAL. Theorems: would_conflict (hand model, compared exhaustively with Mailbox.would_conflict) never admits a command "
          "whose declared footprint clashes with a running one (one asymmetric FETCH case excluded and exhibited); if steps of "
          "different commands commute, every interleaving of any number of commands equals their serial execution; commands that "
          "never ask for a mailbox while holding one (single-mailbox commands, COPY, MOVE as copy()/do_move() queue them) cannot "
-         "deadlock, with mutual exclusion preserved. On the implementation: after generated histories 2-3 sessions issue commands "
+         "deadlock, with mutual exclusion preserved; FETCH/STORE/SEARCH as the two steps they are (arrival with the gate on the "
+         "notification queue; execution after admission with the gate repeated): under EVERY interleaving of arrivals, executions "
+         "and whole commands each session's replayed view stays legal and a non-UID FETCH/STORE/SEARCH is sent no EXPUNGE "
+         "(Model/Phases.v; with the second gate removed the model exhibits the desynchronisation that commit 1902352 repaired). "
+         "On the implementation: after generated histories 2-3 sessions issue commands "
          "together under seeded perturbation of every I/O completion; all must complete (never by the watchdog) and results + "
-         "final contents must equal SOME order of the commands' documented steps in the proved sequential model.",
+         "final contents AND the data each issuer was sent for the messages it addressed must equal SOME order of the commands' "
+         "documented steps in the proved sequential model (a poll of the management task may fall anywhere).",
     note=TB + "Assumed: asyncio eventually runs every enabled step; command bodies have the declared footprints; threads appear as "
          "completion events; the schedule space is sampled (seeded), not enumerated.", ref="6/C10")
 CHECKS["C14"] = dict(
